@@ -19,9 +19,9 @@ meta = json.load(open(os.path.join(src, "meta.json")))
 res = {"property": prop, "summary": meta.get("summary"), "needs": meta.get("needs"), "ran": []}
 try:
     demo_src = [f for f in os.listdir(src) if f.startswith("demo")]
-    _loc = [t.strip("()`'\",;") for t in (meta.get("demo_location", "") or "").split() if ".go" in t]
-    demo_loc = (_loc[0] if _loc else "").replace("/tmp/seed-" + prop + "/", "").replace("<worktree root>/", "")
-    if demo_loc.startswith("/"): demo_loc = os.path.basename(demo_loc)
+    _m = re.search(r"(pkg/[\w/]+?)(?:/[\w]+\.go|\s|\)|$)", meta.get("demo_location", "") or "")
+    demo_dir = _m.group(1) if _m else ""
+    demo_loc = demo_dir
     demo_cmd = meta.get("demo_cmd", "")
     k = os.path.basename(os.path.normpath(src))
     def place_demo():
@@ -33,8 +33,7 @@ try:
                 if os.path.isdir(p):
                     shutil.copytree(p, os.path.join(wt, f), dirs_exist_ok=True)
                     continue
-                dst = os.path.join(wt, demo_loc) if demo_loc else os.path.join(wt, f)
-                if not dst.endswith(".go"): dst = os.path.join(dst, f)
+                dst = os.path.join(wt, demo_dir, f)
                 os.makedirs(os.path.dirname(dst), exist_ok=True)
                 shutil.copyfile(p, dst)
     def run_demo():
